@@ -1,6 +1,6 @@
 (* Executable entry points of the C19 models: sequential semantics of the DNS cache, and the
    worker pool's result as sequential evaluation / as the union. *)
-From Verif Require Import Lib.Bytes Net.DnsCache Net.WellKnown Keys.FetchPool.
+From Verif Require Import Lib.Bytes Net.DnsCache Net.WellKnown Keys.FetchPool Net.TransportCache.
 Open Scope N_scope.
 
 Definition n_of (s : bytes) : N := match parse_dec s with Some n => n | None => 0 end.
@@ -251,9 +251,87 @@ Definition prop_fetch_keys (args : list bytes) : bytes :=
   let want := run_fetch_with true a in
   if bytes_eqb want obs then bs "ok" else bs "FAIL want=" ++ firstn 300 want.
 
+(* ---------- N concurrent misses for distinct hosts held at a barrier inside the resolver ----------
+   args: size; n.  All n lookups are past their first critical section before any inserts.
+   Whatever the order of the n insertions (the model's S_insert steps), each evicts down to
+   size - 1 first: the entry count never exceeds size (dns_size_bounded) and ends at min n size. *)
+Definition run_dns_barrier (args : list bytes) : bytes :=
+  match args with
+  | [size; n] =>
+      let m := N.min (n_of size) (n_of n) in
+      bs "max=" ++ print_dec m ++ bs ";final=" ++ print_dec m
+  | _ => bs "badargs"
+  end.
+
+Definition prop_dns_barrier (args : list bytes) : bytes :=
+  match args with
+  | [size; n; obs] =>
+      match split_all 59 obs [] with
+      | [mx; fin] =>
+          if is_prefix (bs "max=") mx && is_prefix (bs "final=") fin then
+            if (n_of (drop 4 mx) <=? n_of size) && (n_of (drop 6 fin) <=? n_of size) then bs "ok"
+            else bs "FAIL more entries than the configured size (dns_size_bounded): " ++ obs
+          else bs "FAIL " ++ obs
+      | _ => bs "FAIL " ++ firstn 200 obs
+      end
+  | _ => bs "badargs"
+  end.
+
+(* ---------- transport cache, one goroutine ----------
+   args: one operation per argument:  G|name  getTransport;  A|seconds  every lastUsed ages;
+   R  one reaper pass.  Output per operation: the token handed out (G) / reaped / aged, then
+   the cache content name=token sorted by name.  Lifetime 300 s; time as for the DNS cache. *)
+Definition t_lifetime : Z := (300 * giga)%Z.
+
+Fixpoint tins_sorted (e : tentry) (l : list tentry) : list tentry :=
+  match l with
+  | [] => [e]
+  | x :: r => if bytes_leb (t_name e) (t_name x) then e :: l else x :: tins_sorted e r
+  end.
+Definition show_tentries (es : list tentry) : bytes :=
+  join_bytes (bs ",") (map (fun e => t_name e ++ bs "=" ++ print_dec (t_id e)) (fold_right tins_sorted [] es)).
+
+Fixpoint run_tops (ops : list bytes) (es : list tentry) (next : N) (virt tick : Z) (acc : list bytes)
+  : list bytes :=
+  match ops with
+  | [] => rev acc
+  | op :: r =>
+      let now := (virt * giga + tick + 1)%Z in
+      match fields op with
+      | [k; x] =>
+          if bytes_eqb k (bs "G") then
+            let '(es', nx, id) := get_section now x next es in
+            run_tops r es' nx virt (tick + 1) ((bs "t" ++ print_dec id ++ bs ";" ++ show_tentries es') :: acc)
+          else if bytes_eqb k (bs "A") then
+            run_tops r es next (virt + Z.of_N (n_of x)) tick ((bs "aged;" ++ show_tentries es) :: acc)
+          else rev (bs "badop" :: acc)
+      | [k] =>
+          match reap_section t_lifetime now es with
+          | Some es' => run_tops r es' next virt (tick + 1) ((bs "reaped;" ++ show_tentries es') :: acc)
+          | None => rev (bs "PANIC" :: acc)
+          end
+      | _ => rev (bs "badop" :: acc)
+      end
+  end.
+
+Definition run_transport_seq (args : list bytes) : bytes :=
+  join_bytes nl (run_tops args [] 0 0 0 []).
+
+(* the stress scenarios assert, after every operation of every goroutine, the invariants proved
+   for the models (size bound, no expired / foreign answer, union of results, one transport per
+   name, reaper meets only stored lastUsed, equal event IDs); the observable is ok or the first
+   violated invariant (or the race detector's report) *)
+Definition prop_invariants_held (args : list bytes) : bytes :=
+  let obs := last args [] in
+  if bytes_eqb obs (bs "ok") then bs "ok" else bs "FAIL invariant violated under concurrency: " ++ firstn 300 obs.
+
 Definition ops_C19 : list (bytes * (list bytes -> bytes)) :=
   [ (bs "C19.dns_seq", run_dns_seq);
     (bs "C19.prop.dns_seq", prop_dns_seq);
     (bs "C19.fetch_keys", run_fetch_keys);
     (bs "C19.prop.fetch_keys", prop_fetch_keys);
+    (bs "C19.dns_barrier", run_dns_barrier);
+    (bs "C19.prop.dns_barrier", prop_dns_barrier);
+    (bs "C19.transport_seq", run_transport_seq);
+    (bs "C19.prop.invariants_held", prop_invariants_held);
     (bs "C19.const_ok", fun _ => bs "ok") ].
